@@ -8,8 +8,9 @@ Plan (JSON-able; all delays in units of simloop.U = 2**-10 s, overshoots in unit
      "connects": [{"delay", "outcome", "reads", "drains", "eof_err", "close_err"}...],   n-th open_connection call
      "hooks": [[duration, kill]...],           n-th hook handled by the (stub) addon manager
      "reactions": [[action...]...],            n-th event delivered to the layer -> commands it returns
-     "eager": bool}                            eager task start (as under Master.run) or asyncio's default lazy start
-actions: ["open", addr_index] | ["send", conn_ref, nbytes] | ["close", conn_ref, half] | ["hook", blocking] |
+     "eager": bool,                            eager task start (as under Master.run) or asyncio's default lazy start
+     "client_udp": bool}                       the client connection is a UDP "connection" (no half-close, 20 s timeout)
+actions: ["open", addr_index] (0, 1: TCP addresses, 2: UDP address) | ["send", conn_ref, nbytes] | ["close", conn_ref, half] | ["hook", blocking] |
          ["wakeup", delay] | ["log"]
 conn_ref: -1 = client, k >= 0 = k-th server connection the layer created (modulo their number).
 
@@ -33,7 +34,7 @@ from mitmproxy import connection
 from mitmproxy.connection import ConnectionState
 from mitmproxy.proxy import commands, events, mode_servers, mode_specs, server_hooks
 
-ADDRS = [("a.test", 80), ("b.test", 443)]
+ADDRS = [("a.test", 80), ("b.test", 443), ("u.test", 53)]  # the third one is reached over UDP
 OV_U = 2.0 ** -20
 
 
@@ -136,7 +137,8 @@ class World:
             if client_gone and op in ("open", "wakeup"):
                 continue
             if op == "open":
-                s = connection.Server(address=ADDRS[a[1] % len(ADDRS)])
+                s = connection.Server(address=ADDRS[a[1] % len(ADDRS)],
+                                      transport_protocol="udp" if a[1] % len(ADDRS) == 2 else "tcp")
                 self.sidx[id(s)] = len(self.servers)
                 self.servers.append(s)
                 out.append(commands.OpenConnection(s))
@@ -149,7 +151,7 @@ class World:
             elif op == "close":
                 c = self.ref(a[1])
                 if c.state is not ConnectionState.CLOSED:
-                    if a[2]:
+                    if a[2] and c.transport_protocol == "tcp":
                         out.append(commands.CloseTcpConnection(c, half_close=True))
                     else:
                         out.append(commands.CloseConnection(c))
@@ -196,7 +198,8 @@ def run_plan(plan, fault=None, max_iter=60_000):
     async def main(loop):
         w = box["w"]
         c = plan.get("client", {})
-        r, wr = w.net.make_client(c.get("reads", ()), c.get("drains", ()), c.get("eof_err", False))
+        r, wr = w.net.make_client(c.get("reads", ()), c.get("drains", ()), c.get("eof_err", False),
+                                  udp=plan.get("client_udp", False))
         opts, mode = options(plan.get("timeout", 10))
         h = Handler(w, r, wr, opts, mode)
         h.world = w
@@ -283,7 +286,7 @@ def decode_plan(data, max_timeout=3, max_conn=9):
             k = t.byte()
             op = k % 8
             if op <= 2:
-                acts.append(["open", (k >> 3) & 1])
+                acts.append(["open", (k >> 3) % 5 % 3])  # a, b twice as often as the UDP address
             elif op == 3:
                 acts.append(["send", (k >> 3) % 10 - 1, 1 + (k >> 7)])
             elif op == 4:
@@ -296,7 +299,7 @@ def decode_plan(data, max_timeout=3, max_conn=9):
                 acts.append(["send", -1, 1])
         reactions.append(acts)
     return {"timeout": timeout, "overshoots": overshoots, "client": client, "connects": connects, "hooks": hooks,
-            "reactions": reactions, "eager": t.flag(1, 2)}
+            "reactions": reactions, "eager": t.flag(1, 2), "client_udp": t.flag(1, 4)}
 
 
 def plan_strategy(max_timeout=3, max_conn=9, size=320):
